@@ -85,30 +85,26 @@ theorem walk_noShadow_unshadowed (t : Tree) : ∀ (top inh : Bool) (d : Nat),
     · exact ihr _ _ _ f hf
 
 /-- the shadow function the generator ends up with: an entry of the same name at a smaller depth, or a
-    left-out top-level field of that name (for promoted entries) -/
+    left-out field of that name at a smaller depth -/
 def genShadow (t : Tree) : Shadow :=
-  fun d n => shadowOf (walkTop noShadow t) d n || (decide (0 < d) && (hiddenTop t).contains n)
+  fun d n => shadowOf (walkTop noShadow t) d n || (hiddenAll 0 t).any (fun h => h.1 = n ∧ h.2 < d)
 
-theorem hideBy_markBy (H : List String) (sh : Shadow) (f : Field) :
-    hideBy H (markBy sh f) = markBy (fun d n => sh d n || (decide (0 < d) && H.contains n)) f := by
+theorem hideBy_markBy (H : List (String × Nat)) (sh : Shadow) (f : Field) :
+    hideBy H (markBy sh f) = markBy (fun d n => sh d n || H.any (fun h => h.1 = n ∧ h.2 < d)) f := by
   unfold hideBy markBy
-  by_cases h : 0 < f.depth ∧ H.contains f.name = true
-  · have h' : 0 < ({ f with isShadowed := sh f.depth f.name } : Field).depth ∧
-        H.contains ({ f with isShadowed := sh f.depth f.name } : Field).name = true := h
+  by_cases h : H.any (fun h => h.1 = f.name ∧ h.2 < f.depth) = true
+  · have h' : H.any (fun h => h.1 = ({ f with isShadowed := sh f.depth f.name } : Field).name ∧
+        h.2 < ({ f with isShadowed := sh f.depth f.name } : Field).depth) = true := h
     rw [if_pos h']
-    have hm : f.name ∈ H := by simpa using h.2
-    simp [h.1, hm]
-  · have h' : ¬ (0 < ({ f with isShadowed := sh f.depth f.name } : Field).depth ∧
-        H.contains ({ f with isShadowed := sh f.depth f.name } : Field).name = true) := h
+    simp only [h, Bool.or_true]
+  · have h' : ¬ (H.any (fun h => h.1 = ({ f with isShadowed := sh f.depth f.name } : Field).name ∧
+        h.2 < ({ f with isShadowed := sh f.depth f.name } : Field).depth) = true) := h
     rw [if_neg h']
-    by_cases h1 : 0 < f.depth
-    · have h2 : H.contains f.name = false := by
-        cases hc : H.contains f.name
-        · rfl
-        · exact absurd ⟨h1, hc⟩ h
-      have hm : f.name ∉ H := by simpa using h2
-      simp [h1, hm]
-    · simp [h1]
+    have hf : H.any (fun h => h.1 = f.name ∧ h.2 < f.depth) = false := by
+      cases hc : H.any (fun h => h.1 = f.name ∧ h.2 < f.depth)
+      · rfl
+      · exact absurd hc h
+    simp only [hf, Bool.or_false]
 
 /-- the generator's field list is the pre-order walk with the closed-form shadow flags -/
 theorem flatten_closed (t : Tree) : flatten t = walkTop (genShadow t) t := by
